@@ -10,6 +10,10 @@
  *   ops:  set i D      mpt_identifier_set(id_i, D, |D|)
  *         setz i D     mpt_identifier_set(id_i, D+"\0", -1)
  *         raw i n      mpt_identifier_set(id_i, NULL, n)          (n may be -1)
+ *         seta i o n   mpt_identifier_set(id_i, data(id_i) + o', n')  the name lies INSIDE the identifier's own
+ *                      current content (inline bytes or its block): o' = min(o, _len), n' = min(n, _len - o')
+ *         setaz i o    the same through the strlen interface (length -1) when a zero byte lies in
+ *                      data[o'.._len), else with the explicit length _len - o'   (= self_arg of IdentModel.v)
  *         copy i j     mpt_identifier_copy(id_i, id_j)
  *         copyn i      mpt_identifier_copy(id_i, NULL)
  *         cmp i D      mpt_identifier_compare(id_i, D, |D|)
@@ -167,6 +171,26 @@ static void run_case(int ntok, char **tok)
 			n = vh_int(tok[t++]);
 			counting = 1;
 			r = mpt_identifier_set(slot[i], 0, (int) n);
+			counting = 0;
+			vh_tok(r ? "D" : "R");
+		}
+		else if (!strcmp(op, "seta") || !strcmp(op, "setaz")) {
+			int z = op[4] == 'z';
+			size_t off, have; long n = 0; void *r;
+			const char *cur;
+			i = vh_int(tok[t++]);
+			off = strtoul(tok[t++], 0, 10);
+			if (!z) n = vh_int(tok[t++]);
+			cur = (const char *) mpt_identifier_data(slot[i]);
+			if (off > slot[i]->_len) off = slot[i]->_len;
+			have = slot[i]->_len - off;
+			if (z) {
+				if (have && memchr(cur + off, 0, have)) n = -1;
+				else n = (long) have;
+			}
+			else if (n < 0 || (size_t) n > have) n = (long) have;
+			counting = 1;
+			r = mpt_identifier_set(slot[i], cur + off, (int) n);
 			counting = 0;
 			vh_tok(r ? "D" : "R");
 		}
